@@ -74,6 +74,23 @@ PROPS["C17"] = dict(
     thorough=dict(shards=16, timeout=1800),
 )
 
+PROPS["C15"] = dict(
+    pkg="c15", level="exploration", design_ref="DESIGN.md section 3, C15",
+    technique="rapid state machine over Use/Unuse/Call on a real client and service joined by the mock transport, against a list model of the onion; calls parked inside handlers while chains change",
+    level_text=("Model-based stateful testing: every call's recorded enter/exit trace, its result (each invoke handler wraps it on the way back) and its "
+                "error must equal the onion computed from a list model of the four chains a call crosses (client invoke, client io, service io, service "
+                "invoke). In-flight changes are made while the harness holds a call parked inside a chosen handler, so the order is owned by the harness. "
+                "Free-running concurrent Use/Unuse is sampled and checked for structural validity only."),
+    level_note="Handlers installed twice at the same time are not generated (the statement does not settle their removal semantics). A chain is taken to be obtained per manager when the call reaches it.",
+    rule=("onion-seq / onion-aliased: rapid-drawn histories of client/service Use, Unuse (including absent and already removed handlers) and calls with an optional "
+          "short-circuit or injected error at any handler; non-trivial = the history contains a call after an Unuse of an installed handler with at least 2 others installed. "
+          "onion-inflight: a call parked in a chosen handler while 1..4 Use/Unuse operations run (always non-trivial). onion-race: free-running. Distinct by history text."),
+    assumptions=["handlers of the main pool are separately declared functions / distinct plugin types so that each has its own code pointer",
+                 "the aliased pool (closures of one literal, instances of one plugin type) exercises the open finding unuse-code-pointer"],
+    quick=dict(shards=4, timeout=400),
+    thorough=dict(shards=16, timeout=1800),
+)
+
 # properties not claimed yet (kept current as checks land)
 _ALL = ["C%02d" % i for i in range(1, 21)]
 NOT_APPLICABLE = [dict(property_id=p, reason="check not built yet in this revision (planned in DESIGN.md section 3); not a limit of the technique")
